@@ -7,6 +7,8 @@ GEN   specs/keepstore/KeepstorePut.tla  MC_C02.cfg  (write path step by step; Cr
 RUN   harness/C02_keepstore             kill points in a child process (test binary re-executed), cancel points,
                                         injected write / rename / mkdir errors, on the instrumented working-tree
                                         unix_volume.go; then GET / index / directory scan by a fresh handler
+                                        + GET /index running concurrently with the PUT, turn by turn (schedules of
+                                        KeepVolume.tla, Gen_C02_index.cfg): the index clause at every instant
 JUDGE specs/keepstore/KeepstorePutTrace.tla (KeepstorePutContract)
 """
 import os
@@ -89,6 +91,14 @@ def run(ctx):
         other = [s for s in kills if s not in core]
         rnd.shuffle(other)
         scns = core + other[:12] + [s for s in scns if s["mode"] not in ("kill", "killack")]
+    # GET /index concurrent with the PUT (index clause at every instant of the write): schedules of KeepVolume.tla
+    idx, _ = ctx.gen(SD, "KeepVolume", "Gen_C02_index.cfg", timeout=900, label="schedules GET /index || PUT")
+    for s in idx:
+        pre = s["pre"][0]
+        scns.append({"pre": pre, "n": 1, "mode": "index", "point": "", "occ": 0,
+                     "ck": rnd.choice(kinds) if pre == "corrupt_old" else "",
+                     "steps": [{"a": st["a"], "l": st["l"]} for st in s["steps"]]})
+    ctx.extra["index_schedules"] = len(idx)
     for i, s in enumerate(scns):
         s["id"] = i + 1
     by_id = {s["id"]: s for s in scns}
@@ -136,7 +146,9 @@ def run(ctx):
     nontrivial = set()
     for t in traces:
         h = t[0]
-        if h["mode"] != "none" and h.get("reached"):
+        if h["mode"] == "index":
+            nontrivial.add(("index", h["pre"], h.get("ck", ""), tuple(h.get("order") or [])))
+        elif h["mode"] != "none" and h.get("reached"):
             nontrivial.add((h["pre"], h.get("ck", ""), h["n"], h["mode"], h["point"], h["occ"]))
     ctx.extra["distinct_nontrivial"] = len(nontrivial)
     ctx.extra["labels_reached"] = len(reached)
